@@ -318,6 +318,12 @@ class CONSEngine(Engine):
                 seq += [["wait", draw(st.sampled_from([2, 3, 4]))], ["run", 12]]
             seq += [["wait", 2], ["run", 12], ["err", b, "fetch", draw(st.sampled_from(FETCH_CODES)), 1], ["wait", 2], ["run", 12], ["wait", 4], ["run", 12], ["wait", 4], ["run", 12]]
             return seq
+        if kind == "outage":
+            # the leader refuses connections for longer than the request timeout, then accepts again
+            seq = [start, ["run", 40], app, ["wait", 2], ["run", 30], ["refuse", b], ["drop", 0], ["drop", 0], app, ["run", 12]]
+            for _ in range(draw(st.integers(2, 6))):
+                seq += [["wait", draw(st.sampled_from([4, 5, 5, 6]))], ["run", 12]]
+            return seq + [["refuse", b], app, ["run", 20], ["wait", 5], ["run", 20], ["wait", 5], ["run", 30]]
         if kind == "failfetch":
             return [start, ["run", 30], ["err", b, "fetch", draw(st.sampled_from(FETCH_CODES)), draw(st.integers(1, 4))], app, ["wait", 1], ["run", 10], ["timer"], ["run", 10], ["timer"], ["run", 10],
                     ["timer"], ["run", 10], ["timer"], ["run", 20]]
@@ -1255,6 +1261,8 @@ class CONSEngine(Engine):
                         # C13: "a stopped consumer can be started again" - and then consumes
                         self.note("C13.restartable", "C13.restarted-consumer-does-not-consume", "run #%d is a restart of the consumer stopped in run #%d (%s); faults ceased %.0f virtual seconds ago, the log holds %r from its start position on, but nothing was ever delivered" % (
                             run["no"], prev["no"], "after shutdown()" if prev.get("shutdown_watch") is not None else "after stop()", 20.0 + 4 * self.timeout, rest[:4]))
+                    if self.faults:
+                        self.note("C08.recovery", "C08.consumer-did-not-recover", "run #%d: faults (leader moves, restarts, refused connections) ceased %.0f virtual seconds ago, yet the consumer has not resumed: log records %r were not delivered" % (run["no"], 20.0 + 4 * self.timeout, rest[:5]))
                     self.note("C02.completeness", "C02.not-delivered-after-faults-ceased", "run #%d: faults ceased %.0f virtual seconds ago, the processor succeeds, yet log records %r were not delivered" % (run["no"], 20.0 + 4 * self.timeout, rest[:5]))
                 elif not rest and self.faults:
                     self.nt.add("recovered-after-faults")
